@@ -107,6 +107,7 @@ Judge ==
           <<R.syncbad = 0, "SyncBitExact">>,
           <<R.satlen = ns, "SaturationEntries">>,
           <<R.padbad = 0, "PadRows">>,
+          <<R.appendbad = 0, "AppendConcatenates">>,
           <<R.lsb <= 1, "EqualsBatchwise">> >>)
     /\ wpc' = [w \in D!W |-> "none"]
     /\ UNCHANGED <<ns, NB, np, pad, off, wb, wcur, wmax, file, misplaced, rms, size, pads, tid, wpos, impl>>
